@@ -204,12 +204,26 @@ pub open spec fn no_tree_change(d0: Docs, d1: Docs, uuid: Seq<char>) -> bool {
     &&& (d0.contains_key(uuid) ==> tree_same(d0[uuid], d1[uuid]))
 }
 
-/// which case of an edit of `uuid` applies: unknown object / known without winner / known with tree `t0` and winner `w`
-pub enum Target { Create, NoWinner, Child(RevisionTree, Revision) }
-pub open spec fn update_target(m0: Melda, uuid: Seq<char>, obj: JMap) -> Target {
-    let d0 = dmap(m0.documents);
-    if !d0.contains_key(uuid) { Target::Create }
-    else { match d0[uuid].winner_cache { None => Target::NoWinner, Some(w) => Target::Child(d0[uuid], w) } }
+/// preconditions of an edit of a KNOWN object with tree `t0`: the tree is validated (leaves / winner are those of the
+/// recorded set: `get_winner` panics otherwise), parent links go to smaller indices, the index does not overflow
+pub open spec fn known_pre(t0: RevisionTree) -> bool {
+    &&& validated_ok(t0) && tree_wf(t0.revisions@)
+    &&& match t0.winner_cache { Some(w) => w.index < u32::MAX, None => true }
+}
+/// ... and for `update_object`, the panics of the real code as preconditions
+pub open spec fn update_known_pre(data: DataStorage, t0: RevisionTree, uuid: Seq<char>, obj: JMap) -> bool {
+    &&& known_pre(t0)
+    &&& match t0.winner_cache {
+        Some(w) => {
+            // a well-formed array descriptor whose winner order can be rebuilt (`.expect(..)`s of create_delta_array_descriptor)
+            &&& is_arr(uuid) ==> array_edit_pre(data, t0, obj)
+            // a digestible object (`digest_object(..).unwrap()`)
+            &&& !is_arr(uuid) ==> digestible(obj)
+            // DataStorage::write_object's precondition (unit pack) for the content that gets stored
+            &&& match edit_content(data, t0, w, uuid, obj) { Some(o) => ds_write_pre(data, obj_digest(o), o), None => true }
+        },
+        None => true,
+    }
 }
 /// what `create_object(uuid, obj)` does (also the unknown-object case of `update_object`)
 pub open spec fn create_post(m0: Melda, m1: Melda, uuid: Seq<char>, obj: JMap, ret: Result<Option<String>, VxError>) -> bool {
@@ -286,6 +300,20 @@ pub open spec fn delete_post(m0: Melda, m1: Melda, uuid: Seq<char>, ret: Result<
             }
         }
 }
+/// preconditions of `remove_object` on a known object: parent links go to smaller indices, the tree-level staging flag covers
+/// the staged entries (both needed by `unstage`), no index overflow
+pub open spec fn remove_pre(t0: RevisionTree) -> bool {
+    &&& tree_wf(t0.revisions@) && tree_inv(t0)
+    &&& forall|k: Revision| #[trigger] t0.revisions@.contains_key(k) ==> k.index < u32::MAX
+}
+pub proof fn lemma_unstaged_wf(m: RevMap, out: RevMap)
+    requires tree_wf(m), is_unstaged_part(m, out),
+    ensures tree_wf(out),
+{
+    assert forall|k: Revision| #[trigger] out.contains_key(k) implies (match out[k].parent { Some(p) => p.index < k.index, None => true }) by {
+        assert(m.contains_key(k) && out[k] == m[k]);
+    }
+}
 /// `remove_object(uuid)`: first the staged records of the object are discarded (tree `tu`); if nothing is left the object is
 /// forgotten, otherwise it is deleted as by `delete_object` on `tu`
 pub open spec fn remove_post(m0: Melda, m1: Melda, uuid: Seq<char>, ret: Result<Option<String>, VxError>) -> bool {
@@ -296,23 +324,27 @@ pub open spec fn remove_post(m0: Melda, m1: Melda, uuid: Seq<char>, ret: Result<
     &&& if !d0.contains_key(uuid) { res_none(ret) && !d1.contains_key(uuid) } else { removed(d0[uuid], d1, uuid, ret) }
 }
 pub open spec fn removed(t0: RevisionTree, d1: Docs, uuid: Seq<char>, ret: Result<Option<String>, VxError>) -> bool {
-    exists|tu: RevisionTree| #[trigger] removed_via(t0, tu, d1, uuid, ret)
+    exists|tu: RevisionTree| #[trigger] unstaged_tree(t0, tu) && remove_outcome(tu, d1.contains_key(uuid), d1[uuid], ret)
 }
-pub open spec fn removed_via(t0: RevisionTree, tu: RevisionTree, d1: Docs, uuid: Seq<char>, ret: Result<Option<String>, VxError>) -> bool {
-    &&& is_unstaged_part(t0.revisions@, tu.revisions@) && !tu.staging && validated_ok(tu)
-    &&& if tu.revisions@.len() == 0 { res_none(ret) && !d1.contains_key(uuid) }   // no committed history
-        else {
-            &&& d1.contains_key(uuid)
-            &&& match tu.winner_cache {
-                None => ret is Err && tree_same(tu, d1[uuid]),
-                Some(w) =>
-                    if w@.1 == DELETED_HASH@ || marker(w@) { res_none(ret) && tree_same(tu, d1[uuid]) }
-                    else {
-                        let v = edit_rev(DELETED_HASH@, Some(w));
-                        edit_recorded(tu.revisions@, d1[uuid], v, Some(w)) && validated_ok(d1[uuid]) && res_text(ret, rev_str(v))
-                    },
-            }
+/// `tu` is `t0` without its staged records, validated
+pub open spec fn unstaged_tree(t0: RevisionTree, tu: RevisionTree) -> bool {
+    is_unstaged_part(t0.revisions@, tu.revisions@) && !tu.staging && validated_ok(tu)
+}
+/// `has`: the object is still known afterwards, with tree `t1`
+pub open spec fn remove_outcome(tu: RevisionTree, has: bool, t1: RevisionTree, ret: Result<Option<String>, VxError>) -> bool {
+    if tu.revisions@.len() == 0 { res_none(ret) && !has }   // no committed history: the object is forgotten
+    else {
+        &&& has
+        &&& match tu.winner_cache {
+            None => ret is Err && tree_same(tu, t1),
+            Some(w) =>
+                if w@.1 == DELETED_HASH@ || marker(w@) { res_none(ret) && tree_same(tu, t1) }
+                else {
+                    let v = edit_rev(DELETED_HASH@, Some(w));
+                    edit_recorded(tu.revisions@, t1, v, Some(w)) && validated_ok(t1) && res_text(ret, rev_str(v))
+                },
         }
+    }
 }
 
 // ---------------------------------------------------------------- C19: same edit of the same version => same revision
